@@ -61,17 +61,18 @@ CONFIG = {
             "name": "print.ord", "harness": "printh", "driver": "drv_print", "env": _env("ord"),
             "n": {"quick": 30000, "thorough": 300000, "search": 30000},
             "shards": {"quick": 4, "thorough": 8, "search": 4},
-            "rule": "sourceElements.Less / optionsByLocation.Less on generated (typeOrder, startLine, index) pairs; sort.Sort of "
+            "rule": "sourceElements.Less / optionsByLocation.Less on generated (typeOrder | hasLocation, startLine, index, name) pairs; sort.Sort of "
                     "1-9 elements compared with the model's reference sort whenever the order is determined (uniform lines, no ties).",
         },
     ],
     "trusted_base": [
         "Lean 4.33.0 kernel; axioms propext, Classical.choice, Quot.sound",
         "hand-written models J5V/Print/{TextString,RefName,OptionText,Order}.lean of internal/j5s/protoprint/** kernels "
-        "(prototextString, contextRefName/pathToPackage, parseOption/printOption/printOptionArray/printOptionMessageFields/"
+        "(prototextString, contextRefName/pathToPackage/declaresName, parseOption/printOption/printOptionArray/printOptionMessageFields/"
         "printFieldStyle/Simplify, sourceElements.Less, optionsByLocation.Less), validated by the print.str/ref/opt/ord streams",
         "reader-side specifications written in Lean from the protobuf language spec and validated differentially against "
-        "bufbuild/protocompile v0.14.1: string-literal unescaping (lexer) and relative-name resolution (linker)",
+        "bufbuild/protocompile v0.14.1: string-literal unescaping (lexer) and relative-name resolution (linker); the token "
+        "parser of C05_option_inv is tied to the rendered text only through the driver's tokeniser (checked on every optstmt op)",
         "protocompile's grammar-level parser, option interpreter and source-info generator: third party, NOT modelled; the "
         "whole-file theorem C05_reparse_partial takes its relation to the kernels as a hypothesis (structure Reader)",
         "scalar option values other than strings/bytes (strconv integer / float formatting, enum value names) are opaque texts "
